@@ -1128,7 +1128,9 @@ IS_BF_CACHED = Contract(
                                            c.operation)))),
             c.gold('fs_kind')[c.old('BuildFileOperation.filename', c.operation)] == K_FILE),
          ['C01', 'C13'])],
-    raises=[ExcSpec('OSError', ensures=no_effect), ExcSpec('ValueError', ensures=no_effect)],
+    # C01/C05: an output that is not there -- missing, a directory, or a path below a regular
+    # file -- is "changed", never an error: only an OS fault (EIO, EACCES, ...) may escape
+    raises=[ExcSpec('OtherOSError', ensures=no_effect), ExcSpec('ValueError', ensures=no_effect)],
     modifies=lambda c: ['SimpleOperationExecutor._hash_cache'],
     lemmas=['sanitized_eqdom'],
 )
@@ -1159,6 +1161,18 @@ def record_wf(c, op):
             ('record-exists', is_alloc(c.gold('alloc'), op))]
 
 
+class _ExOld:
+    def __init__(self, c):
+        self.self = c.old('FileBuilder._simple_operation_executor', c.self)
+        self.old, self.gold = c.old, c.gold
+
+
+def bfop_target_exists(c):
+    from contracts import executor as EXC_
+    return EXC_.vexists(_ExOld(c), c.old('BuildFileOperation.filename', c.operation),
+                        EXC_.OCF.some(c.created_files))
+
+
 IS_BFOP = Contract(
     M + '_is_build_file_operation_cached', props=['C06', 'C01', 'C05', 'C08'],
     params={'self': FB, 'operation': OBJ('BuildFileOperation'), 'created_files': CFO}, returns=BOOL,
@@ -1172,6 +1186,12 @@ IS_BFOP = Contract(
         ('true-only-if-path-unclaimed', Implies(c.res, Not(CA.OO.is_some(c.old(
             NCF, c.old('FileBuilder._new_cache', c.self))[c.old(
                 'BuildFileOperation.filename', c.operation)]))), ['C08', 'C01']),
+        # C01/C04/C10: a failed build_file call is replayed as "failed, target absent" only if
+        # nothing stands at its target now -- executing it would first move a file there aside
+        # (and delete it), or fail differently on a directory
+        ('a-replayed-failure-finds-nothing-at-its-target', Implies(
+            And(c.res, c.old(RAISED, c.operation)),
+            Not(bfop_target_exists(c))), ['C01', 'C04', 'C10']),
     ],
     raises=[ExcSpec('RuntimeError', ensures=replay_frame), ExcSpec('OSError', ensures=replay_frame),
             ExcSpec('ValueError', ensures=replay_frame)],
@@ -1548,8 +1568,15 @@ def makedirs_backup_guard(eng, st, cargs):
     p = cargs['filename'].t
     v = _StView(eng, st)
     oc = eng.hread(st, 'FileBuilder._old_cache', env_t(st, 'self'))
+    nc = eng.hread(st, 'FileBuilder._new_cache', env_t(st, 'self'))
     return [('moves-only-outputs-of-the-previous-build',
-             CA.created(v, 'old', oc, p, 'Cache._norm_cased_files'), ['C03', 'C02'])]
+             CA.created(v, 'old', oc, p, 'Cache._norm_cased_files'), ['C03', 'C02']),
+            # what stands at a path the current build has begun to (re)build is this build's own
+            # work (the old bytes were backed up when that build_file call began): moving it into
+            # the backups would make the roll-back restore bytes the failed build wrote
+            ('never-moves-a-file-this-build-is-building',
+             Not(CA.OO.is_some(eng.hread(st, 'Cache._norm_cased_files', nc)[p])),
+             ['C02', 'C10', 'C14'])]
 
 
 def only_listed_changes(c, kind_now, made):
